@@ -123,6 +123,7 @@ class Interp:
         self.entry_old = None
         self.ghost_vals = {}
         self.final_env = None
+        self.ghost_funcs = {}
 
     # ---------------------------------------------------------- utilities
     def fresh_const(self, base, sort):
@@ -266,6 +267,15 @@ class Interp:
             seq = self.fresh_seq(f"Sort({p[1]})", name)
             return Cell("arr", seq)
         raise SpecError(f"unknown type descriptor {ty!r}")
+
+    def fresh_ghost_func(self, name, sig):
+        dom, rng = sig.split("->")
+        srt = {"Int": z3.IntSort(), "Bool": z3.BoolSort(),
+               "Real": z3.RealSort()}
+        f = z3.Function(self.namer.fresh(name),
+                        *[srt[d.strip()] for d in dom.split(",")],
+                        srt[rng.strip()])
+        return LibFunc(name, lambda I, *a, f=f: f(*[to_int(x) for x in a]))
 
     def fresh_seq(self, elem, name, length=None):
         if length is None:
@@ -904,6 +914,8 @@ class Interp:
             return v
         if self.spec and n == "result":
             return self.result
+        if self.spec and n in self.ghost_funcs:
+            return self.ghost_funcs[n]
         if self.spec and n in self.V.lib.SPEC_CONSTS:
             return self.V.lib.SPEC_CONSTS[n]
         if n in ("True", "False", "None"):
@@ -971,9 +983,20 @@ class Interp:
 
     def e_BoolOp(self, node, env):
         if self.spec:
-            vals = [bz(self.truth(self.eval(v, env))) for v in node.values]
-            return z3.And(*vals) if isinstance(node.op, ast.And) \
-                else z3.Or(*vals)
+            vals = []
+            is_and = isinstance(node.op, ast.And)
+            for v in node.values:
+                t = self.truth(self.eval(v, env))
+                if isinstance(t, bool):
+                    if is_and and not t:
+                        return False      # short-circuit
+                    if (not is_and) and t:
+                        return True
+                    continue
+                vals.append(t)
+            if not vals:
+                return is_and
+            return z3.And(*vals) if is_and else z3.Or(*vals)
         v = None
         for sub in node.values:
             v = self.eval(sub, env)
@@ -1075,12 +1098,26 @@ class Interp:
         if isinstance(fn, ast.Name):
             if self.spec and fn.id in ("forall", "exists"):
                 return self.quantifier(fn.id, node, env)
+            if self.spec and fn.id == "forall2":
+                # forall2(i, n1, k, n2, body): 0<=i<n1, 0<=k<n2
+                n1 = to_int(self.eval(node.args[1], env))
+                n2 = to_int(self.eval(node.args[3], env))
+                bi = z3.Int(self.namer.fresh("q_" + node.args[0].id))
+                bk = z3.Int(self.namer.fresh("q_" + node.args[2].id))
+                env2 = dict(env)
+                env2[node.args[0].id] = bi
+                env2[node.args[2].id] = bk
+                body = bz(self.truth(self.eval(node.args[4], env2)))
+                return z3.ForAll([bi, bk], z3.Implies(
+                    z3.And(0 <= bi, bi < n1, 0 <= bk, bk < n2), body))
             if self.spec and fn.id == "old":
                 return self.eval_old(node.args[0], env)
             if self.spec and fn.id == "implies":
-                a = bz(self.truth(self.eval(node.args[0], env)))
+                a = self.truth(self.eval(node.args[0], env))
+                if a is False or (is_z3(a) and z3.is_false(z3.simplify(a))):
+                    return True      # short-circuit: b may be undefined
                 b = bz(self.truth(self.eval(node.args[1], env)))
-                return z3.Implies(a, b)
+                return z3.Implies(bz(a), b)
             if self.spec and fn.id == "iff":
                 a = bz(self.truth(self.eval(node.args[0], env)))
                 b = bz(self.truth(self.eval(node.args[1], env)))
@@ -1336,8 +1373,23 @@ class Interp:
                 res = self.fresh(con.returns, self.namer.fresh(
                     f"ret.{con.func}@{self.cur_line}"))
             self.old_env, self.result = old, res
+            saved_gf = dict(self.ghost_funcs)
+            for gname, sig in con.extra.get("ghost_funcs", {}).items():
+                gf = self.fresh_ghost_func(f"{con.func}.{gname}", sig)
+                self.ghost_funcs[gname] = gf
+                self.ghost[f"call:{con.func}.{gname}"] = gf
             for e in con.ensures:
                 self.assume(bz(self.eval_spec(e, env, keep=True)))
+            self.ghost_funcs = saved_gf
+            if len(self.func_stack) == 1:
+                for anchor, callee, hexpr in self.contract.hints:
+                    if anchor == "after_call" and callee == con.func:
+                        henv = dict(env)
+                        henv["result"] = res
+                        self.result = res
+                        h = self.eval_spec(hexpr, henv)
+                        if h is not None and not isinstance(h, bool):
+                            self.assume(bz(h))
             if len(self.func_stack) == 1:
                 for gname, callees in self.contract.extra.get(
                         "bind_call_results", {}).items():
